@@ -212,15 +212,18 @@ def check_array_readme(out, path, m, has_meta, tag):
         return
     f = readme_fields(txt)
     bits, word = NUMTYPE_WORDS[m.dtype.name]
+    # a field that cannot be located (reworded README) is not a contradiction: only located fields are compared
     nt = (f['numtype'] or '').replace('‐', '-')
-    if not (nt.startswith(bits + '-bit') and word in nt):
+    if f['numtype'] is None:
+        out.cls('readme:field-not-located')
+    elif not (nt.startswith(bits + '-bit') and word in nt):
         out.viol('readme-wrong-field', tag + ':numtype', f"README says {f['numtype']!r}, data are {m.dtype.name}")
     bo = 'little' if m.dtype.str[0] in '<|' else 'big'
     if m.dtype.itemsize == 1:
         bo = f['byteorder'] if f['byteorder'] in ('little', 'big') else None   # meaningless for 1-byte types
-    if f['byteorder'] != bo:
+    if f['byteorder'] is not None and f['byteorder'] != bo:
         out.viol('readme-wrong-field', tag + ':byteorder', f"README says {f['byteorder']!r}, data are {bo}")
-    if f['shape'] != tuple(m.shape):
+    if f['shape'] is not None and f['shape'] != tuple(m.shape):
         out.viol('readme-wrong-field', tag + ':shape', f"README says {f['shape']}, data are {m.shape}")
     if f['mentions_metadata'] != bool(has_meta):
         out.viol('readme-wrong-field', tag + ':metadata', f"README mentions metadata.json: {f['mentions_metadata']}, metadata exist: {has_meta}")
